@@ -16,6 +16,9 @@ pub struct Case {
     pub reply: FinalReply,
     /// NTLM negotiate flags the server's CHALLENGE leaves out (0: the Windows-like default set)
     pub challenge_without: u32,
+    /// the same authentication object (Ntlm) first completes an honest session; in the judged second session the
+    /// server answers the final round with the reply it gave in the first one (a recorded reply replayed)
+    pub replay_after_reuse: bool,
 }
 
 pub struct C01 {
@@ -104,7 +107,7 @@ fn structured(other_keys: &[Vec<u8>]) -> Vec<FinalReply> {
 fn class_of(r: &FinalReply, version_byte_bits: Option<(usize, usize)>) -> u8 {
     match r {
         FinalReply::Honest => 0,
-        FinalReply::BerLong | FinalReply::ExtraTrailingField | FinalReply::Version(_) | FinalReply::ZeroExtended(_) => 2,
+        FinalReply::BerLong | FinalReply::ExtraTrailingField | FinalReply::Version(_) | FinalReply::ZeroExtended(_) | FinalReply::SealedWithSeq(_) => 2,
         FinalReply::FlipBit(n) => {
             if let Some((lo, hi)) = version_byte_bits {
                 if *n >= lo && *n < hi {
@@ -115,6 +118,61 @@ fn class_of(r: &FinalReply, version_byte_bits: Option<(usize, usize)>) -> u8 {
         }
         _ => 1,
     }
+}
+
+/// two sessions driven through x224::Client::connect with ONE Ntlm object; the second server replays the first
+/// server's final reply
+fn replay_after_reuse(cfg: &ConnCfg, cert: Cert) -> Outcome {
+    use crate::memlink::MemLink;
+    use rdp::core::{tpkt, x224};
+    use rdp::model::link::{Link, Stream};
+    use rdp::nla::ntlm::Ntlm;
+    use std::cell::RefCell;
+    use std::rc::Rc;
+    let account = |p: &mut ServerParams| {
+        p.acct_user = cfg.client.user.clone();
+        p.acct_domain = cfg.client.domain.clone();
+        p.acct_password = cfg.client.password.clone();
+    };
+    let mut ntlm = if cfg.use_hash {
+        Ntlm::from_hash(cfg.client.domain.clone(), cfg.client.user.clone(), &vref::ntlm::nt_hash(&cfg.client.password))
+    } else {
+        Ntlm::new(cfg.client.domain.clone(), cfg.client.user.clone(), cfg.client.password.clone())
+    };
+    let restricted = cfg.restricted_admin;
+    // session 1: honest
+    let mut p1 = ServerParams { selected: 2, ..Default::default() };
+    account(&mut p1);
+    let peer1 = match crate::tls::TlsPeer::new(p1, vec![], cert) {
+        Ok(p) => Rc::new(RefCell::new(p)),
+        Err(e) => return Outcome::fail("setup", "machinery", e),
+    };
+    let t1 = tpkt::Client::new(Link::new(Stream::Raw(MemLink::with_peer(peer1.clone()))));
+    if let Err(e) = x224::Client::connect(t1, 3, false, Some(&mut ntlm), restricted, cfg.blank_creds) {
+        return Outcome::fail("mismatch", "honest-server-refused", format!("first session: {:?}", e));
+    }
+    let recorded = match peer1.borrow().srv.sent.iter().find(|s| s.0 == "cssp_pubkey").map(|s| s.2.clone()) {
+        Some(b) => b,
+        None => return Outcome::fail("setup", "final-round-not-reached", "first session".to_string()),
+    };
+    // session 2: same object, the reply of session 1 replayed
+    let mut p2 = ServerParams { selected: 2, final_reply: FinalReply::Raw(recorded), ..Default::default() };
+    account(&mut p2);
+    let peer2 = match crate::tls::TlsPeer::new(p2, vec![], cert) {
+        Ok(p) => Rc::new(RefCell::new(p)),
+        Err(e) => return Outcome::fail("setup", "machinery", e),
+    };
+    let t2 = tpkt::Client::new(Link::new(Stream::Raw(MemLink::with_peer(peer2.clone()))));
+    let r2 = x224::Client::connect(t2, 3, false, Some(&mut ntlm), restricted, cfg.blank_creds);
+    let pr = peer2.borrow();
+    if !pr.srv.final_reply_sent {
+        return Outcome::fail("setup", "final-round-not-reached", format!("second session: {:?}", pr.srv.errors));
+    }
+    let released = pr.srv.creds.is_some() || pr.srv.log.iter().any(|m| m.name == "cssp_credentials");
+    if released || pr.srv.bytes_after_final_reply > 0 || r2.is_ok() {
+        return Outcome::fail("mismatch", "credentials-released-after-a-replayed-reply", format!("the authentication object had completed an earlier session; the reply recorded there was accepted in a new session: released={} bytes after the reply={} connect ok={}", released, pr.srv.bytes_after_final_reply, r2.is_ok()));
+    }
+    Outcome::pass("replayed-reply-rejected", true)
 }
 
 impl Prop for C01 {
@@ -142,14 +200,14 @@ impl Prop for C01 {
                 let len = honest.len();
                 self.honest_len.insert((ci, format!("{:?}", cert)), len);
                 let full = tier == Tier::Thorough || (ci == 0 && cert == Cert::A) || (ci == 4 && cert == Cert::B);
-                cs.push(Case { cfg_id: ci, cert, reply: FinalReply::Honest, challenge_without: 0 });
+                cs.push(Case { cfg_id: ci, cert, reply: FinalReply::Honest, challenge_without: 0, replay_after_reuse: false });
                 let others: Vec<Vec<u8>> = match cert {
                     Cert::A => vec![key_b.clone(), key_m.clone()],
                     Cert::B => vec![key_a.clone(), key_m.clone()],
                     _ => vec![key_a.clone(), key_b.clone()],
                 };
                 for r in structured(&others) {
-                    cs.push(Case { cfg_id: ci, cert, reply: r, challenge_without: 0 });
+                    cs.push(Case { cfg_id: ci, cert, reply: r, challenge_without: 0, replay_after_reuse: false });
                 }
                 // every proper prefix of the value, correctly sealed (the value must be compared as a whole)
                 let klen = match cert {
@@ -158,19 +216,19 @@ impl Prop for C01 {
                     _ => key_a.len(),
                 };
                 for n in (0..klen).step_by(if full { 1 } else { 29 }) {
-                    cs.push(Case { cfg_id: ci, cert, reply: FinalReply::SealedPrefix(n), challenge_without: 0 });
+                    cs.push(Case { cfg_id: ci, cert, reply: FinalReply::SealedPrefix(n), challenge_without: 0, replay_after_reuse: false });
                 }
                 let step = if full { 1 } else { 13 };
                 for bit in (0..len * 8).step_by(step) {
-                    cs.push(Case { cfg_id: ci, cert, reply: FinalReply::FlipBit(bit), challenge_without: 0 });
+                    cs.push(Case { cfg_id: ci, cert, reply: FinalReply::FlipBit(bit), challenge_without: 0, replay_after_reuse: false });
                 }
                 for n in (0..len).step_by(if full { 1 } else { 7 }) {
-                    cs.push(Case { cfg_id: ci, cert, reply: FinalReply::Truncate(n), challenge_without: 0 });
+                    cs.push(Case { cfg_id: ci, cert, reply: FinalReply::Truncate(n), challenge_without: 0, replay_after_reuse: false });
                 }
                 if full {
                     for d in -256i64..=256 {
                         if d != 1 {
-                            cs.push(Case { cfg_id: ci, cert, reply: FinalReply::Offset(d), challenge_without: 0 });
+                            cs.push(Case { cfg_id: ci, cert, reply: FinalReply::Offset(d), challenge_without: 0, replay_after_reuse: false });
                         }
                     }
                     let keylen = if cert == Cert::B { key_b.len() } else { key_a.len() };
@@ -179,7 +237,7 @@ impl Prop for C01 {
                             if j == 0 && !neg {
                                 continue; // + 2^0 is the honest value
                             }
-                            cs.push(Case { cfg_id: ci, cert, reply: FinalReply::Pow2(j, neg), challenge_without: 0 });
+                            cs.push(Case { cfg_id: ci, cert, reply: FinalReply::Pow2(j, neg), challenge_without: 0, replay_after_reuse: false });
                         }
                     }
                 }
@@ -188,17 +246,17 @@ impl Prop for C01 {
         // carry propagation of key + 1: a raw 32-byte key starting with 0xFF (Ed25519), every offset -300..300
         let key_ff = acceptor(Cert::Ed25519FF)?.1;
         for ci in [0usize, 1] {
-            cs.push(Case { cfg_id: ci, cert: Cert::Ed25519FF, reply: FinalReply::Honest, challenge_without: 0 });
+            cs.push(Case { cfg_id: ci, cert: Cert::Ed25519FF, reply: FinalReply::Honest, challenge_without: 0, replay_after_reuse: false });
             for r in structured(&[key_a.clone(), key_b.clone()]) {
                 // a "prefix" as long as the (32-byte) key is the honest value itself
                 if matches!(r, FinalReply::SealedPrefix(n) if n >= key_ff.len()) {
                     continue;
                 }
-                cs.push(Case { cfg_id: ci, cert: Cert::Ed25519FF, reply: r, challenge_without: 0 });
+                cs.push(Case { cfg_id: ci, cert: Cert::Ed25519FF, reply: r, challenge_without: 0, replay_after_reuse: false });
             }
             for d in -300i64..=300 {
                 if d != 1 {
-                    cs.push(Case { cfg_id: ci, cert: Cert::Ed25519FF, reply: FinalReply::Offset(d), challenge_without: 0 });
+                    cs.push(Case { cfg_id: ci, cert: Cert::Ed25519FF, reply: FinalReply::Offset(d), challenge_without: 0, replay_after_reuse: false });
                 }
             }
             for j in 0..key_ff.len() * 8 {
@@ -206,7 +264,7 @@ impl Prop for C01 {
                     if j == 0 && !neg {
                         continue;
                     }
-                    cs.push(Case { cfg_id: ci, cert: Cert::Ed25519FF, reply: FinalReply::Pow2(j, neg) , challenge_without: 0 });
+                    cs.push(Case { cfg_id: ci, cert: Cert::Ed25519FF, reply: FinalReply::Pow2(j, neg) , challenge_without: 0, replay_after_reuse: false });
                 }
             }
         }
@@ -214,15 +272,21 @@ impl Prop for C01 {
         for without in [vref::ntlm::F_SIGN, vref::ntlm::F_ALWAYS_SIGN, vref::ntlm::F_SEAL, vref::ntlm::F_SIGN | vref::ntlm::F_ALWAYS_SIGN, vref::ntlm::F_56, vref::ntlm::F_TARGET_TYPE_SERVER] {
             for ci in [0usize, 1, 4] {
                 let cert = Cert::A;
-                cs.push(Case { cfg_id: ci, cert, reply: FinalReply::Honest, challenge_without: without });
+                cs.push(Case { cfg_id: ci, cert, reply: FinalReply::Honest, challenge_without: without, replay_after_reuse: false });
                 for r in structured(&[key_b.clone(), key_m.clone()]) {
-                    cs.push(Case { cfg_id: ci, cert, reply: r, challenge_without: without });
+                    cs.push(Case { cfg_id: ci, cert, reply: r, challenge_without: without, replay_after_reuse: false });
                 }
                 // every bit of the 16-byte signature that precedes the sealed value, and a few beyond
                 let len = *self.honest_len.get(&(ci, format!("{:?}", cert))).unwrap_or(&0);
                 for bit in (0..len * 8).step_by(if tier == Tier::Thorough { 1 } else { 5 }) {
-                    cs.push(Case { cfg_id: ci, cert, reply: FinalReply::FlipBit(bit), challenge_without: without });
+                    cs.push(Case { cfg_id: ci, cert, reply: FinalReply::FlipBit(bit), challenge_without: without, replay_after_reuse: false });
                 }
+            }
+        }
+        // one authentication object used for two sessions: nothing of the first may make a replayed reply acceptable
+        for ci in [0usize, 1, 2, 3] {
+            for cert in [Cert::A, Cert::B] {
+                cs.push(Case { cfg_id: ci, cert, reply: FinalReply::Honest, challenge_without: 0, replay_after_reuse: true });
             }
         }
         self.cases = cs;
@@ -249,7 +313,7 @@ impl Prop for C01 {
         json!({"idx": idx, "config": configs()[c.cfg_id], "certificate": c.cert, "final_round_reply": c.reply, "challenge_flags_left_out": format!("{:#x}", c.challenge_without)})
     }
     fn rule(&self) -> String {
-        "cases = (connector configuration, server certificate, reply of the server in the final CredSSP round). Configurations: 3 credential sets x password|hash x {plain, restricted admin, blank credentials}; certificates RSA-2048, EC P-256 (+ an untrusted RSA key for the relay case). Replies: honest; every single-bit flip of the honest TSRequest; key+d for every d in [-256,256] except 1 and key +- 2^j for every j up to 248, correctly sealed; sealed with client-to-server keys / another session key / wrong signing key / wrong sealing key / advanced cipher stream; honest reply for another certificate's key (relay); reflection of the client's token; every truncation; extensions; BER long lengths, extra field, missing/empty pubKeyAuth, wrong context tag, versions 0/3/6; EOF. Full alphabet for two configurations in quick (every 13th bit / 7th truncation elsewhere), for all in thorough. Also: an Ed25519 certificate whose raw key starts with 0xFF (carry of key+1) with every offset -300..300 and +-2^j; the CHALLENGE of the earlier round leaving out SIGN / ALWAYS_SIGN / SEAL / 56 / TARGET_TYPE flags x structured replies x bit flips. Oracle: honest => credentials released and well formed; must-reject => connect returns Err, the server's TLS endpoint receives zero application bytes after its reply, and the client does not ask the (still open) transport for more bytes after the reply was delivered; don't-care (same integer, other spelling) => if accepted the value was right. Non-trivial: every reply but the honest one.".into()
+        "cases = (connector configuration, server certificate, reply of the server in the final CredSSP round). Configurations: 3 credential sets x password|hash x {plain, restricted admin, blank credentials}; certificates RSA-2048, EC P-256 (+ an untrusted RSA key for the relay case). Replies: honest; every single-bit flip of the honest TSRequest; key+d for every d in [-256,256] except 1 and key +- 2^j for every j up to 248, correctly sealed; sealed with client-to-server keys / another session key / wrong signing key / wrong sealing key / advanced cipher stream; honest reply for another certificate's key (relay); reflection of the client's token; every truncation; extensions; BER long lengths, extra field, missing/empty pubKeyAuth, wrong context tag, versions 0/3/6; EOF. Full alphabet for two configurations in quick (every 13th bit / 7th truncation elsewhere), for all in thorough. Also: an Ed25519 certificate whose raw key starts with 0xFF (carry of key+1) with every offset -300..300 and +-2^j; the CHALLENGE of the earlier round leaving out SIGN / ALWAYS_SIGN / SEAL / 56 / TARGET_TYPE flags x structured replies x bit flips. Also: one authentication object (Ntlm) used for two sessions through x224::Client::connect, the second server replaying the first server's final reply (4 configurations x 2 certificates). Oracle: honest => credentials released and well formed; must-reject => connect returns Err, the server's TLS endpoint receives zero application bytes after its reply, and the client does not ask the (still open) transport for more bytes after the reply was delivered; don't-care (same integer, other spelling) => if accepted the value was right. Non-trivial: every reply but the honest one.".into()
     }
     fn assumptions(&self) -> Vec<String> {
         vec![
@@ -267,6 +331,9 @@ impl Prop for C01 {
     fn run_case(&mut self, idx: u64) -> Outcome {
         let c = self.cases[idx as usize].clone();
         let cfg = configs()[c.cfg_id].clone();
+        if c.replay_after_reuse {
+            return replay_after_reuse(&cfg, c.cert);
+        }
         let mut p = ServerParams { selected: 2, final_reply: c.reply.clone(), ..Default::default() };
         p.ntlm.flags &= !c.challenge_without;
         let t = match tls_connect(&cfg, p, vec![], c.cert) {
